@@ -462,6 +462,10 @@ impl Args {
         self.kv.contains_key(k)
     }
     pub fn tier(&self) -> String {
+        // slow instrumented legs may run the quick budget inside a thorough check
+        if let Some(t) = self.get("tier-override") {
+            return t.to_string();
+        }
         self.get_str("tier", "quick")
     }
     pub fn thorough(&self) -> bool {
